@@ -2,13 +2,15 @@
 EXTENDS Ledger, LedgerTable, Json
 
 NoneV == "None"
-KnownAll == {"C16-1"}
+KnownAll == {"C16-1", "C16-2"}
+Known1 == {"C16-1"}
+Known2 == {"C16-2"}
 KnownNone == {}
 
 \* family S (supply and capacity): deposits near the capacity, a transfer chain, a withdrawal
-TxS == {"D1", "D2", "D3", "D5", "T1", "W1"}
+TxS == {"D1", "D2", "D3", "D5", "D6", "T1", "W1"}
 \* family R (references, competing spenders, second and third asset)
-TxR == {"D1", "D3", "D4", "T1", "T2", "T3", "W1", "X1", "K1"}
+TxR == {"D1", "D3", "D4", "T1", "T2", "T3", "W1", "X1", "K1", "K2"}
 DefOf(S) == [t \in S |-> TxDefU[t]]
 TxDefS == DefOf(TxS)
 TxDefR == DefOf(TxR)
@@ -19,10 +21,10 @@ Bound == Len(topo) <= 4 /\ Cardinality(validated) <= 2
 BoundQ == Len(topo) <= 3 /\ Cardinality(validated) <= 2
 BoundR == Len(topo) <= 3 /\ Cardinality(validated) <= 1
 
-View == <<body, final, lock, dlock, total, topo, validated>>
+View == <<body, final, lock, dlock, total, ainfo, topo, validated>>
 
 St(b, f, lk, dl, tot, tp, v) ==
-    [body |-> b, final |-> f, total |-> tot, topo |-> tp, validated |-> v,
+    [body |-> b, final |-> f, total |-> tot, topo |-> tp, validated |-> v, ai |-> ainfo,
      lock |-> { <<o[1], o[2], lk[o]>> : o \in {x \in AllOuts : lk[x] # NoneV} },
      dlock |-> dl]
 Emit == PrintT("EDGE " \o ToJson([from |-> St(body, final, lock, dlock, total, topo, validated),
